@@ -278,6 +278,7 @@ type opResult struct {
 	amount *big.Int
 	events [][2]*big.Int // withdraw events (pool id, amount)
 	allEv  sdk.Events
+	err    string
 }
 
 func (e *vestEnv) deliver(ctx sdk.Context, f func(c sdk.Context) (*big.Int, error)) (res opResult) {
@@ -291,6 +292,9 @@ func (e *vestEnv) deliver(ctx sdk.Context, f func(c sdk.Context) (*big.Int, erro
 			}
 		}()
 		amt, err := f(cctx)
+		if err != nil {
+			res.err = err.Error()
+		}
 		if err == nil {
 			res.ok = true
 			if amt != nil {
@@ -791,8 +795,30 @@ func runVestCase(ta *TestApp, seed uint64, idx int, rep *Report, profile string)
 			if rng.Chance(5) {
 				en = st
 			}
+			pReversed := 40
+			if len(e.denoms) >= 2 && rng.Chance(35) {
+				// a well-formed creation over several denominations: every amount positive and covered, a new recipient, start before end
+				good := sdk.Coins{}
+				for _, d := range e.denoms {
+					balv := app.BankKeeper.SpendableCoins(ctx, e.addrs[from]).AmountOf(denomNames[d]).BigInt()
+					if balv.Sign() > 0 {
+						good = append(good, sdk.NewCoin(denomNames[d], sdk.NewIntFromBigInt(new(big.Int).Add(rng.BigBelow(balv), bi(1)))))
+					}
+				}
+				if len(good) >= 2 {
+					coins = good
+					if ab := absent(); len(ab) > 0 {
+						to = ab[rng.Intn(len(ab))]
+					}
+					if en <= st {
+						en = st + 1 + rng.I64n(20000000)
+					}
+					pReversed = 65
+					rep.Count("create_va.well_formed_multi_denom")
+				}
+			}
 			// the message may list the coins in another order than the canonical one (basic validation accepts that; the handler sorts)
-			reversed := len(coins) >= 2 && rng.Chance(40)
+			reversed := len(coins) >= 2 && rng.Chance(pReversed)
 			if reversed {
 				rep.Count("create_va.coins_not_in_canonical_order")
 			}
@@ -1192,6 +1218,14 @@ func (e *vestEnv) predicates(ctx sdk.Context, op *vestOp, pre *vestSnap, res opR
 	}
 	if res.ok && op.kind == "send" {
 		rep.Eval("C08.request_within_locked_succeeds", true, c, st, "")
+	}
+	if op.kind == "create_va" && res.panic_ == "" && op.owner >= 0 && op.to > 0 && op.to != op.owner && op.to != e.blockedId {
+		// C08: creating a vesting account directly transfers the given coins: a request for positive amounts the sender can spend, to
+		// an address without an account, with start not after end, goes through (in whatever order the message lists the coins)
+		_, existed := pre.accBytes[op.to]
+		if !existed && op.coins.IsValid() && op.coins.IsAllPositive() && pre.spendable[op.owner].IsAllGTE(op.coins) && op.start <= op.end {
+			rep.Eval("C08.create_va_well_formed_succeeds", res.ok, c, st, fmt.Sprintf("%s was refused: %s", op.term, res.err))
+		}
 	}
 	if (op.kind == "split" || op.kind == "move") && !res.ok && res.panic_ == "" && op.owner >= 0 && op.to > 0 && op.to != op.owner && op.to != e.blockedId {
 		// C07: any amount up to the sender's locked, undelegated coins can be split off / everything locked can be moved
